@@ -23,6 +23,19 @@ def sh(cmd, cwd=None, timeout=900):
     return p.returncode, p.stdout
 
 
+def apply_patch(cwd, path):
+    """git apply; patches written before later hook lines were added to the repository are merged three-way."""
+    rc, out = sh("git apply %s" % path, cwd=cwd)
+    if rc != 0:
+        rc, out2 = sh("git apply -3 %s" % path, cwd=cwd)
+        if rc == 0:
+            sh("git reset -q", cwd=cwd)   # -3 stages the result
+        else:
+            sh("git checkout -- . && git reset -q", cwd=cwd)
+            out += out2
+    return rc, out
+
+
 def do_import(wt, sid):
     d = os.path.join(SEEDED, sid)
     os.makedirs(d, exist_ok=True)
@@ -75,7 +88,7 @@ def do_verify(sid):
         cmd = meta.get("demo_cmd") or ("go test -vet=off -count=1 -run Demo " + pkg)
         cmd = re.sub(r"^(GO\w+=\S+\s+)+", "", cmd)
         rc0, out0 = sh("timeout 300 " + cmd, cwd=wt)
-        rc, out = sh("git apply %s" % os.path.join(d, "patch.diff"), cwd=wt)
+        rc, out = apply_patch(wt, os.path.join(d, "patch.diff"))
         if rc != 0:
             print("PATCH DOES NOT APPLY", out)
             meta["verified"] = False
@@ -105,7 +118,7 @@ def do_run(sid, tier="quick", props=None):
         print("refusing: /repo has uncommitted changes:\n" + out)
         return
     props = props or [meta["property"]]
-    rc, out = sh("git -C /repo apply %s" % os.path.join(d, "patch.diff"))
+    rc, out = apply_patch("/repo", os.path.join(d, "patch.diff"))
     if rc != 0:
         print("patch does not apply to /repo:", out)
         return
@@ -135,7 +148,7 @@ def do_runwt(sid, tier="quick", props=None):
     sh("git -C /repo worktree add -q --detach %s HEAD" % wt)
     results = {}
     try:
-        rc, out = sh("git apply %s" % os.path.join(d, "patch.diff"), cwd=wt)
+        rc, out = apply_patch(wt, os.path.join(d, "patch.diff"))
         if rc != 0:
             print(sid, "INFRA: patch does not apply:", out[:200])
             return
@@ -176,7 +189,7 @@ def do_run_benign(sid, tier="quick", props=None):
     sh("git -C /repo worktree add -q --detach %s HEAD" % wt)
     results = meta.setdefault("runs", {}).setdefault(tier, {})
     try:
-        rc, out = sh("git apply %s" % os.path.join(d, "patch.diff"), cwd=wt)
+        rc, out = apply_patch(wt, os.path.join(d, "patch.diff"))
         if rc != 0:
             print("patch does not apply:", out)
             return
